@@ -592,6 +592,12 @@ func depthName(name string, depth int) string {
 	return name + strconv.Itoa(depth)
 }
 
+// arrayLengthName names the variable holding an array's announced length in a stream decoder.
+func arrayLengthName(settings GenerateSettings) string {
+	(*settings.nextLength)++
+	return "la" + strconv.Itoa(*settings.nextLength)
+}
+
 func lengthName(settings GenerateSettings) string {
 	(*settings.nextLength)++
 	return "ln" + strconv.Itoa(*settings.nextLength)
